@@ -40,7 +40,7 @@ def r_processnode(root):
     MANY, ONE, OPT = consts.get("MULT_ONEORMORE"), consts.get("MULT_ONE"), consts.get("MULT_OPTIONAL")
     TERM = HS({".kind": "cls", ".__name__": "Terminal"})
     REM = HS({".kind": "cls", ".__name__": "RegExMatch"})
-    def build(tools=False, double=False, regexp_group=False):
+    def build(tools=False, double=False, regexp_group=False, falsy_part=False):
         prov = HS({".kind": "callable", ".tag": "rrel provider of the attribute"})
         def attr(name, cls, mult=ONE, cont=True, ref=False, boolasg=False, provider=None, mrule=None):
             return HS({".kind": "metaattr", ".name": name, ".cls": cls, ".mult": mult, ".cont": cont, ".ref": ref, ".bool_assignment": boolasg, ".scope_provider": provider, ".match_rule_name": mrule})
@@ -53,7 +53,7 @@ def r_processnode(root):
         cB.own["_tx_attrs"] = {"name": attr("name", cID)}; cBox.own["_tx_attrs"] = {"inner": attr("inner", cInner)}
         cModel.own["_tx_attrs"] = {"name": attr("name", cID), "items": attr("items", cItem, MANY), "first": attr("first", cItem, ONE, cont=False, ref=True, provider=prov, mrule="ID"),
                                    "refs": attr("refs", cItem, MANY, cont=False, ref=True, provider=None, mrule="FQN"), "kind": attr("kind", cKind), "val": attr("val", cVal), "box": attr("box", cBox),
-                                   "val2": attr("val2", cKindM), "val3": attr("val3", cKindT), "thing": attr("thing", cUser), "code": attr("code", cID), "code2": attr("code2", cID), "code0": attr("code0", cID), "kind2": attr("kind2", cKindM), "num": attr("num", cVal)}
+                                   "val2": attr("val2", cKindM), "val3": attr("val3", cKindT), "thing": attr("thing", cUser), "code": attr("code", cID), "code2": attr("code2", cID), "code0": attr("code0", cID), "kind2": attr("kind2", cKindM), "num": attr("num", cVal), "zval": attr("zval", cVal)}
         def rule(name, cls=None, attr_name=None, root=True, sep=None): return HS({".kind": "rule", ".rule_name": name, ".root": root, "._tx_class": cls, "._attr_name": attr_name, ".sep": sep, ".suppress": False})
         def T(rule_name, value, pos): return TermS({".__class__": TERM, ".kind": "terminal", ".value": value, ".rule_name": rule_name, ".position": pos, ".position_end": pos + len(value), ".rule": rule(rule_name, {"ID": cID}.get(rule_name), root=False), ".suppress": False, ".flat_str": pyeval.PyFn(lambda: value)})
         def N(rule_name, pos, end, kids, cls=None, attr_name=None, sep=None): return pyeval.SList(kids, rule_name=rule_name, rule=rule(rule_name, cls, attr_name, sep=sep), position=pos, position_end=end, value="|".join(str(k) for k in kids), suppress=False, flat_str=pyeval.PyFn(lambda: "".join(str(k) if isinstance(k, TermS) else k.sample_attrs["flat_str"]() for k in kids)))
@@ -84,13 +84,14 @@ def r_processnode(root):
                                                                     N("Kind", 128, 129, [N("B", 128, 129, [A("plain", "name", 128, 129, [T("ID", "b2", 128)])], cB)], cKind),
                                                                     N("Item", 129, 129, [A("plain", "name", 129, 129, [T("ID", "i9", 129)])], cItem)], cKindM)])]
         kids.append(A("plain", "num", 131, 135, [N("Val", 131, 135, [RT("STRICTFLOAT", "-1.5", 131, 3, "1.5", "([+-]?((\\d+\\.\\d*)|(\\.\\d+)))")], cVal)]))       # a match rule made of one regex token with several groups
+        if falsy_part: kids.append(A("plain", "zval", 136, 139, [N("Val", 136, 139, [T("STRING", "x", 136), T("INT", "0", 137), T("STRING", "y", 138)], cVal)]))       # a match rule one of whose parts converts to a falsy value (0)
         if double: kids.append(A("plain", "name", 136, 139, [T("ID", "again", 136)]))
         tree = N("Model", 0, 140, kids, cModel)
         processed = []
         def init_attrs(o):
             for a in o.cls.lookup("_tx_attrs")[1].values(): o.own[a[".name"]] = [] if a[".mult"] == MANY else (False if a[".bool_assignment"] else None)
         mm = HS({".kind": "metamodel", ".user_classes": {"UserThing": user_class}, ".textx_tools_support": tools, ".use_regexp_group": regexp_group, ".debug": False, ".ignore_case": False, ".autokwd": False, ".skipws": True, ".ws": " ", ".auto_init_attributes": True, "._init_obj_attrs": pyeval.PyFn(init_attrs),
-                 ".process": pyeval.PyFn(lambda value, typ, filename=None, col=None, line=None, nchar=None, **k: (processed.append((value, typ, filename, line, col)), ("converted:" + value) if typ == "Val" else value)[1])})
+                 ".process": pyeval.PyFn(lambda value, typ, filename=None, col=None, line=None, nchar=None, **k: (processed.append((value, typ, filename, line, col)), ("converted:" + value) if typ == "Val" else (int(value) if typ == "INT" else value))[1])})
         parser = HS({".kind": "parser", ".debug": False, ".metamodel": mm, ".file_name": "model.file", ".position": 143, ".input": "x" * 140 + "   ", "._inst_stack": [], "._crossrefs": [], "._instances": {}, "._user_obj_ids": [], "._user_class_inst": [],
                      ".pos_to_linecol": pyeval.PyFn(lambda pos: (("line", pos), ("col", pos))), ".dprint": pyeval.PyFn(lambda *a: None)})
         env = dict(consts)
@@ -129,6 +130,10 @@ def r_processnode(root):
         bads = [(n, o.own.get("_tx_position"), o.own.get("_tx_position_end")) for n, o, a, b in spans if (o.own.get("_tx_position"), o.own.get("_tx_position_end")) != (a, b)]
         rep("C06", "C06.f", "objects carry the span of the text their rule matched", not bads, "spans after building the sample model: %s; documented %s" % (bads, [(n, a, b) for n, _o, a, b in spans if any(n == x[0] for x in bads)]))
         rep("C03", "C03.n", "an abstract rule yields the object of its first non-match alternative", kind.cls is C["B"] and g(kind, "name") == "b", "the value of an attribute of abstract type Kind (matched as 'k', the match rule Val and a B object) is %s; documented: the B object (the first referenced rule that is not a match rule)" % (kind.cls.name if isinstance(kind, pyeval.InstObj) else kind))
+    envz, _pz, _mz, _Cz, _prz, _procz = build(falsy_part=True)
+    kz, mz = run(envz)
+    for pr_ in ("C03", "C02", "C04"):
+        rep(pr_, "C03.n", "a match rule keeps a part whose converted value is falsy", kz == "ret" and g(mz, "zval") == "converted:x0y", "the value of an attribute of the match rule Val matched as 'x' '0' 'y' (the middle part an INT, converted to 0) is %s; documented: the text of every part joined ('x0y'), converted once as Val" % (("%r" % (g(mz, "zval"),)) if kz == "ret" else "not built: raises %s" % mz.cls))
     kind2 = g(model, "kind2")
     rep("C03", "C03.n", "the first referenced rule that is not a match rule may itself be abstract; later ones are not built", isinstance(kind2, pyeval.InstObj) and kind2.cls is C["B"] and g(kind2, "name") == "b2" and "i9" not in parser["._instances"].get(id(C["Item"]), {}),
         "the value of an attribute of abstract type matched as (match rule Val, abstract rule Kind -> B 'b2', common rule Item 'i9') is %s; documented: the B object b2 that the abstract rule Kind yields (the first referenced rule that is not a match rule), nothing else is built" % ((kind2.cls.name + " " + str(g(kind2, "name"))) if isinstance(kind2, pyeval.InstObj) else repr(kind2)))
